@@ -357,6 +357,10 @@ func genScenario(src *tape.Source) *scenario {
 	}
 	if input < 6 && !sc.DirMode && sc.Files[0].Kind != "missing" && src.Intn(8, "c19.symlink") == 7 {
 		sc.Files[0].Link = true
+		if src.Intn(3, "c19.linkempty") == 2 {
+			// refused AND empty: neither property of the input may hide the other
+			sc.Files[0].Content, sc.Files[0].Kind = "", "empty"
+		}
 	}
 	switch {
 	case input == 6 && src.Intn(40, "c19.hugestdin") == 39:
